@@ -286,6 +286,14 @@ theorem C06_xpath (table : List TagRow) (nameOf : String → String) (roots : Li
   rw [this]
   simpa using hss
 
+/-- the hypothesis `PathOK` is satisfiable: the second template of `<nta><declaration/><template/><template/></nta>`
+    with today's table and `tag_map` -/
+example : PathOK PathTableGen.table PathCheck.elementName
+    [.elem "NTA" [.elem "DECLARATION" [], .elem "TEMPLATE" [], .elem "TEMPLATE" []]] [0, 2] := by
+  refine ⟨.elem "NTA" [.elem "DECLARATION" [], .elem "TEMPLATE" [], .elem "TEMPLATE" []],
+    ⟨rfl, ⟨"NTA", "nta", none⟩, by decide, by decide, by decide⟩,
+    .elem "TEMPLATE" [], ⟨rfl, ⟨"TEMPLATE", "template", some "TEMPLATE"⟩, by decide, by decide, by decide⟩, trivial⟩
+
 /-- every row of `Path::str` outside the computed exception set `PathCheck.badRows` prints the element's own name and
     counts its own tag — the table-level part of `LevelOK` (the rest is a property of the document) -/
 theorem C06_xpath_rows : ∀ r ∈ PathTableGen.table, r ∉ PathCheck.badRows →
